@@ -24,6 +24,8 @@ DRIVERS = {
     'C04': ('replayers.envw', dict(prop='C04')),
     'C13': ('replayers.envw', dict(prop='C13')),
     'C20': ('replayers.envw', dict(prop='C20')),
+    'C08': ('replayers.envw', dict(prop='C08')),
+    'C12': ('replayers.envw', dict(prop='C12')),
 }
 
 
@@ -34,6 +36,8 @@ def load_contracts():
     import contracts.core as cc
     import ECAgent.Environments as E
     cc.PositionComponent = E.PositionComponent
+    import contracts.environments as ce
+    ce.PositionComponent = E.PositionComponent
     return REG
 
 
